@@ -47,16 +47,18 @@ def _configs(ctx: Ctx, prefill):
         out.append((2, 3, (), None, 2, True, False))
         out.append((2, 3, (), 1, 2, True, False))
         out.append((2, 3, (1,), None, 2, True, False))
-        for N in range(4, 3 * 2 + 5):
+        # (sizes chosen so that the whole tier finishes in well under an hour on 16 idle cores; beyond them the
+        # at-most-once and in-flight invariants are covered for all sizes by the proofs in spec/proofs)
+        for N in range(4, 8):
             out.append((3, N, (), None, 1, N <= 4, False))
-        for N in (4, 9):
+        for N in (4, 6):
             for f in range(1, N + 1):
                 out.append((3, N, (f,), None, 1, N == 4, False))
             for a in range(1, N + 1):
                 out.append((3, N, (), a, 1, N == 4, False))
-        out.append((2, 3, (), None, 3, False, False))
+        out.append((2, 2, (), None, 3, False, False))
         out.append((3, 3, (), None, 2, False, False))
-        out.append((4, 5, (), None, 1, False, False))
+        out.append((4, 4, (), None, 1, False, False))
     return out
 
 
@@ -65,6 +67,13 @@ def run(ctx: Ctx) -> None:
     prefill = {T: LD.measure_prefill(T) for T in (1, 2, 3, 4)}
     ctx.log(f"prefill measured on the real code: {prefill}")
     ctx.cov["prefill_measured"] = prefill
+    # at-most-once and the in-flight bound for EVERY thread count, input length, failing set, abandon position, prefill
+    # and number of pool reuses: inductive invariants checked by the TLA+ proof system while TLC and the replays run
+    import concurrent.futures as cf
+    from .. import tlaps
+    prover = cf.ThreadPoolExecutor(max_workers=2)
+    proofs = [prover.submit(tlaps.prove, ctx, "LazyPool_OnceProofs", ["AtMostOnceForAllInputs"]),
+              prover.submit(tlaps.prove, ctx, "LazyPool_Proofs", ["InFlightBoundForAllInputs"])]
     ctx.assumptions += [
         "threads are scheduled at the granularity of queue.Queue.put/get, one application of the mapped function "
         "and one hand-over to the caller (the queue implementation itself is trusted)",
@@ -96,6 +105,9 @@ def run(ctx: Ctx) -> None:
         raise MachineryError("sanity: Defect=TRUE configuration did not deadlock in the model")
     ctx.cov["model_sanity"] = "Defect=TRUE (silent Collector death) deadlocks in the model as expected"
     ctx.check_vacuity()
+    for f in proofs:
+        f.result()
+    prover.shutdown()
 
     # ---------------------------------------------------------------- 2. spec -> code: replay edge covers
     n_paths = n_full = 0
